@@ -1135,7 +1135,18 @@ def _random_op(rnd, sticky, w, now, threads=False):
         inv = rnd.choice(TR_INVS)
         if threads or not qs or rnd.random() < 0.5:
             return mk('ReadInvalid', inv)
-        return mk(rnd.choice(['ReadNested', 'WriteNested']), inv, rnd.choice(qs))
+        a = rnd.choice(['ReadNested', 'WriteNested'])
+        if a == 'ReadNested':
+            # the abstract id ni<k> of the handed-on validation error does not name the inner parameter: an outer
+            # parameter gets such errors from one inner parameter only within a trace
+            nest = w.__dict__.setdefault('nest_inner', {})
+            qs = [q for q in qs if nest.get(q, p) == p]
+            if not qs:
+                return mk('ReadInvalid', inv)
+            q = rnd.choice(qs)
+            nest[q] = p
+            return mk(a, inv, q)
+        return mk(a, inv, rnd.choice(qs))
     if r < 0.70 and not threads:
         # a nested read: q's driver reads p first (same module, both with a driver method)
         qs = [q for q in TR_PARAMS if q != p and w.mname[q] == w.mname[p] and w.kind[q] == 'rw']
